@@ -365,3 +365,22 @@ Theorem C07_history_announced_iff :
                                         (world_after select params_ok dst_port geoip_ok covert_check cfg lc h1) o)).
 Proof. exact history_announced_iff. Qed.
 Print Assumptions C07_history_announced_iff.
+
+(* ================================================================== more of the "if" direction
+   C07_if_direction_partial assumes "not already tracked" about the table.  Here that hypothesis is discharged into a
+   condition on the INPUTS of the history: after any history of messages from the empty table, a message all of whose
+   requested families can be built yields an announced registration for every requested family that meets the listed
+   conditions, provided no earlier draft registration (of an earlier message, or the IPv4 sibling of this one) used its
+   identifier (phantom, transport, shared secret).  What remains open of C07_if_direction_full_statement is exactly:
+   an unbuildable sibling family (finding 1) and a reused identifier (finding 2; see C07_repeated_message_no_effect). *)
+Theorem C07_if_direction_fresh_identifier :
+  forall select params_ok dst_port geoip_ok covert_check live cfg ws w p v6 r,
+    let st := fst (process_all select params_ok dst_port geoip_ok covert_check live cfg [] ws) in
+    w_payload w = Some p -> message_ok select params_ok dst_port geoip_ok cfg w p = true -> want cfg w p v6 = true ->
+    new_reg select params_ok dst_port geoip_ok cfg w p v6 = Ok r ->
+    listed_conditions covert_check live cfg r = true ->
+    (forall w0 r0, In w0 ws -> In r0 (drafts_of select params_ok dst_port geoip_ok cfg w0) -> same_key r0 r = false) ->
+    (v6 = true -> forall r4, new_reg select params_ok dst_port geoip_ok cfg w p false = Ok r4 -> same_key r4 r = false) ->
+    exists r', In (Announce r') (snd (process select params_ok dst_port geoip_ok covert_check live cfg st w)).
+Proof. exact if_direction_fresh_identifier. Qed.
+Print Assumptions C07_if_direction_fresh_identifier.
